@@ -237,11 +237,15 @@ claim("C02",
       "counters give distinct names (tables VAR_NAME_* and the reserved list re-extracted from the source each run); every string literal decodes (C12); every value "
       "expression, hoisted statement and if-selector statement derives its intended tree in the ECMAScript grammar (gen_derives, if_selector_derives). args_cover (GE/Thm/C02Args.lean): every callback T E B F S J that the "
       "statement of a child node invokes is a parameter of the generated children function it stands in, for every list of child kinds, with or without slot values (tables of "
-      "to_proc_gen_function_args regenerated from the source each run; which callback each kind invokes tied by corr:child-args). Models tied by "
+      "to_proc_gen_function_args regenerated from the source each run; which callback each kind invokes tied by corr:child-args). monitor_sound / names_fresh "
+      "(GE/Thm/C02Writer.lean) over the model of the JavaScript writers of proc_gen/mod.rs (GE/Model/JsWriter.lean: separator flag, hoisted var lists, nested function / block scopes, "
+      "the two counters with extend / align, nested top-scope writers): for EVERY tree of writer operations that the counter monitor accepts, no identifier handed out equals one that is "
+      "visible where it is used — no duplicate arrow-function parameter (a SyntaxError), no captured outer variable, hoisted declarations usable where requested; the model is replayed on the "
+      "operations the real generators performed (hook writer_trace) and must reproduce the artefact text and every counter, and the monitor must accept the run (corr:js-writer). Models tied by "
       "exhaustive identifier correspondence and byte-equality streams. Oracle: V8 parses (sloppy+strict) every artefact of generated, hostile-named, mutated and large templates.",
       "Trusted: Lean kernel; axioms ⊆ {propext, Classical.choice, Quot.sound}; Spec/JsLex, JsGrammar, JsString; extractors; V8. The rest of the statement skeleton of the tag-level "
       "generator and the final step derivable⇒parsable are covered by the oracle only.",
-      "Lean 4 proof (identifiers, literals, expressions) + V8 syntax oracle over all artefacts")
+      "Lean 4 proof (identifiers, literals, expressions, writer identifier discipline) + V8 syntax oracle over all artefacts")
 
 ALL = ["C%02d" % i for i in range(1, 21)]
 
